@@ -51,3 +51,18 @@ Theorem C31_refuted_backoff_law_pre_fix :
   exists ops e, In e (log (run pre_fix std true (init 0) ops)) /\ ~ obeys_law std e.
 Proof. exact refuted_backoff_law_manager. Qed.
 Print Assumptions C31_refuted_backoff_law_pre_fix.
+
+(** The backoff law on the repaired code: for every configuration with
+    non-negative delays and a positive multiplier denominator, the reconnector
+    alone or driven by peer.Manager, every start offset, and EVERY history of
+    events (Schedule, time advance >= 0, return of any running attempt with
+    success or failure, Pause, Resume, ResetAll, Cancel, Stop): each attempt
+    that starts has consecutive-retry index k >= 0 (number of attempts its
+    retry sequence had started before) and starts exactly
+        add_jitter (nd_iter k)
+    after the instant its timer was armed, where nd_iter k is the initial
+    delay multiplied k times by the multiplier (truncating, capped at max). *)
+Theorem C31_backoff_law : forall c mgr off ops e,
+  cfg_ok c -> Forall op_ok ops -> In e (log (run fixed c mgr (init off) ops)) -> obeys_law c e.
+Proof. exact backoff_law. Qed.
+Print Assumptions C31_backoff_law.
